@@ -29,24 +29,54 @@ Fixpoint find_template (l : list (string * list node)) (n : string) : option (li
   | (k, t) :: l' => if String.eqb k n then Some t else find_template l' n
   end.
 
-(* class of a hole by its content: 0 plain and non-empty, 1 quoted-plain, 2 other (also: equal to a string constant of
-   the template, which the contents of a hole must avoid) *)
-Definition hole_class0 (s : string) : nat :=
+(* A hole's symbol is chosen by its content AND by the tokenizer state it is met in: plain content fits everywhere;
+   otherwise a bare-safe string fits at a token boundary or inside an unquoted token, a double-quote-safe or
+   quoted-plain string inside a quoted token. Whatever is chosen, [sym_ok] of the chosen symbol is checked below, so
+   the soundness theorem applies to the run. Class 2 = none of the classes, or equal to a string constant of the
+   template (which the contents of a hole must avoid). *)
+Definition candidates (id : nat) (s : string) : list sym :=
   let cs := chars_of s in
+  (match cs with [] => [] | _ => if all_plain cs then [SH id] else [] end) ++
+  (if bare_ok cs then [SB id] else []) ++
+  (if dq_ok cs then [SD id] else []) ++
+  (if all_qplain cs then [SQ id] else []).
+
+Definition hole_class (tc : list string) (s : string) : nat :=
+  if mem_string s tc then 2 else match candidates 0 s with [] => 2 | _ => 0 end.
+
+Definition step_state (st : slst) (x : sym) : option slst :=
+  match slstep st x with SOk st' _ => Some st' | _ => None end.
+
+Fixpoint run_state (st : slst) (xs : list sym) : option slst :=
+  match xs with
+  | [] => Some st
+  | x :: xs' => match step_state st x with Some st' => run_state st' xs' | None => None end
+  end.
+
+Fixpoint pick (st : slst) (cands : list sym) : option sym :=
+  match cands with
+  | [] => None
+  | x :: rest => match slstep st x with SUnsupported => pick st rest | _ => Some x end
+  end.
+
+(* chunks to symbols, threading the symbolic state (None once the run has stopped: the rest is converted with the
+   first candidate and the run reports the stop) *)
+Fixpoint resolve (sg : list string) (st : option slst) (cs : list chunk) : list sym :=
   match cs with
-  | [] => if all_qplain cs then 1 else 2
-  | _ => if all_plain cs then 0 else if all_qplain cs then 1 else 2
+  | [] => []
+  | CText s :: cs' =>
+      let xs := syms_of_string s in
+      xs ++ resolve sg (match st with Some st0 => run_state st0 xs | None => None end) cs'
+  | CHole id :: cs' =>
+      let cands := candidates id (nth id sg "") in
+      let x := match st with
+               | Some st0 => match pick st0 cands with Some x => x | None => hd (SQ id) cands end
+               | None => hd (SQ id) cands
+               end in
+      x :: resolve sg (match st with Some st0 => step_state st0 x | None => None end) cs'
   end.
 
-Definition hole_class (tc : list string) (s : string) : nat := if mem_string s tc then 2 else hole_class0 s.
-
-Definition syms_of_chunk (sg : list string) (c : chunk) : list sym :=
-  match c with
-  | CText s => syms_of_string s
-  | CHole id => match hole_class0 (nth id sg "") with 0 => [SH id] | _ => [SQ id] end
-  end.
-
-Definition syms_of (sg : list string) (cs : list chunk) : list sym := flat_map (syms_of_chunk sg) cs.
+Definition syms_of (sg : list string) (cs : list chunk) : list sym := resolve sg (Some SLStart) cs.
 
 Definition has_hole (raw : list sym) : bool :=
   existsb (fun x => match x with SC _ => false | _ => true end) raw.
@@ -96,6 +126,9 @@ Definition complaints (c : case) : list (nat * string) :=
           else if existsb (fun s => Nat.eqb (hole_class (consts_of t) s) 2) (t_subst c) then
             [(code_mismatch, "a hole holds characters outside both classes (not a case for this part)")]
           else
+            if negb (forallb (sym_ok (fun id => chars_of (nth id (t_subst c) ""))) (syms_of (t_subst c) chunks)) then
+              [(code_violation, "a value that fits no class of the position it is rendered in")]
+            else
             match slrun SLStart (syms_of (t_subst c) chunks) with
             | RErr => [(code_violation, "lexical error whatever the holes contain")]
             | RUnsupported => [(code_violation, "a value that needs quoting is rendered outside a quoted token")]
